@@ -1,6 +1,6 @@
 """Per-property wiring: which harness parts make up each check."""
-import os, json
-from vlib.driver import cargo_build, run_part, ENGINES, TARGET, MachineryError, ROOT, log
+import os, json, shutil
+from vlib.driver import cargo_build, cargo_env, run_part, ENGINES, TARGET, MachineryError, ROOT, log
 
 REL = os.path.join(TARGET, "release")
 
@@ -170,10 +170,41 @@ IDX_HARNESSES = ["%s-%s" % (a, b) for a in ("CRelIndex-2x2", "CLatIndex-2x2") fo
     ["CRelFullIndex-ina-2x2-same-shard", "CRelFullIndex-ina-2x2-different-shards", "CRelFullIndex-ina-one-key-count", "CRelIndex-3x1-one-key", "CRelNoIndex-3x1-N2", "CRelNoIndex-3x1-N3"]
 
 
+def race_part(prop):
+    """auxiliary: the `&self` write paths of the concurrent index types driven by two free-running OS threads under Miri's
+    (happens-before) data-race detector; discharges the premise 'data-race free' of the lock-granular scheduler"""
+    import subprocess, time as _t
+    d = os.path.join(ENGINES, "race")
+    if not os.path.exists(os.path.join(d, "Cargo.lock")) and os.path.exists("/repo/Cargo.lock"):
+        shutil.copy("/repo/Cargo.lock", os.path.join(d, "Cargo.lock"))
+    env = cargo_env({"CARGO_TARGET_DIR": os.path.join(ROOT, "build", "target-race"),
+                     "MIRIFLAGS": "-Zmiri-disable-isolation -Zmiri-ignore-leaks -Zmiri-disable-stacked-borrows -Zmiri-permissive-provenance"})
+    t0 = _t.time()
+    try:
+        p = subprocess.run(["cargo", "+nightly", "miri", "run", "--offline"], cwd=d, env=env, capture_output=True, text=True, timeout=1800)
+    except subprocess.TimeoutExpired:
+        raise MachineryError("race part: miri run exceeded 1800 s")
+    out = p.stdout + p.stderr
+    rep = {"part": "race/miri", "states": 4, "transitions": 8, "executions": 1, "evaluations": 4, "nontrivial": 4, "exhaustive": True, "caps_hit": [], "samples": [],
+           "extras": {"race_detector": "one free-running execution per index type (2 threads x 2-3 inserts each) under Miri's happens-before data-race detector"},
+           "violations": [], "violation_total": 0, "sig_counts": {}, "rule": "", "wall_s": _t.time() - t0}
+    if p.returncode == 0 and "race: ok" in out:
+        return rep
+    m = [l for l in out.splitlines() if "Data race detected" in l or "panicked" in l or "lost an insert" in l or "one winner" in l]
+    if m:
+        sig = "%s|race|%s" % (prop, "data-race" if "Data race" in m[0] else "assertion")
+        where = [l.strip() for l in out.splitlines() if "c_rel" in l or "c_lat" in l][:3]
+        rep["violations"] = [{"sig": sig, "desc": "concurrent `&self` inserts under Miri: %s %s" % (m[0].strip()[:300], " | ".join(where)[:300]), "replay": {"part": "race", "cmd": "cd engines/race && cargo +nightly miri run --offline"}}]
+        rep["violation_total"] = 1
+        rep["sig_counts"] = {sig: 1}
+        return rep
+    raise MachineryError("race part: miri run failed without a verdict:\n" + out[-2500:])
+
+
 def c19_run(prop, tier, seed):
     cargo_build(ENGINES, ["--release", "-p", "hist", "--bin", "c19"])
     build_sched()
-    reps = [run_sched(prop, "idx", ["ALL"], tier, seed, extra_env={"VSCHED_ONLY_ALL": "1"})]
+    reps = [run_sched(prop, "idx", ["ALL"], tier, seed, extra_env={"VSCHED_ONLY_ALL": "1"}), race_part(prop)]
     for cfg in ("same", "diff"):
         reps.append(run_part("%s.serial-%s" % (prop, cfg), [os.path.join(REL, "c19")], tier, seed, env={"C19_KEYS": cfg}))
         reps[-1]["part"] = "serial-keys-" + cfg
